@@ -41,7 +41,23 @@ def send_site(body, what):
         raise AnchorLost(what + ': limit source ' + e)
     if src.start() > cmpm.start():
         raise AnchorLost(what + ': limit read after comparison')
+    # the limit in force is the one at the moment of the comparison: nothing the call can be parked on (an .await,
+    # a poll_fn) may sit between reading the limit and comparing
+    between = body[src.end():cmpm.start()]
+    if re.search(r'\.await\b|poll_fn|poll_', between):
+        raise AnchorLost(what + ': the call can wait between reading the limit and comparing it')
+    if re.search(r'\.await\b', body[:enc]) and src.start() < body[:enc].rfind('.await'):
+        raise AnchorLost(what + ': the limit is read before an await point')
     return cmpm.group(1) == '>', peer
+
+
+def decomp_arm(body, what):
+    """the `Err(_e) =>` arm next to the HeaderTooLong arm: a connection error with which code"""
+    m = re.search(r'Err\(\s*_e\s*\)\s*=>\s*\{?\s*return\s+(?:Poll::Ready\(\s*)?Err\(\s*self\.handle_connection_error_on_stream\(\s*'
+                  r'InternalConnectionError\s*\{\s*code:\s*Code::(\w+)\s*,', body)
+    if not m:
+        raise AnchorLost(what + ': decode failure is not handle_connection_error_on_stream(InternalConnectionError{code..})')
+    return m.group(1)
 
 
 def recv_site(body, what):
@@ -78,9 +94,7 @@ def extract(repo):
     f['recv_request_own'] = recv_site(body, 'accept_with_frame')
     if not re.search(r'HeaderTooLong\(\s*cancel_size\s*\)\s*\)\s*=>\s*Err\(\s*cancel_size\s*\)', body):
         raise AnchorLost('accept_with_frame: too long is deferred to resolve()')
-    if not re.search(r'Err\(\s*_e\s*\)\s*=>\s*\{\s*return\s+Err\(\s*self\.handle_connection_error_on_stream\(\s*InternalConnectionError\s*\{\s*'
-                     r'code:\s*Code::QPACK_DECOMPRESSION_FAILED', body):
-        raise AnchorLost('accept_with_frame: decompression failure arm')
+    f['recv_request_decomp_code'] = decomp_arm(body, 'accept_with_frame')
     body, spans['resolve'] = sr.fn_body('resolve')
     m = re.search(r'Err\(\s*cancel_size\s*\)\s*=>\s*\{(.*?)return\s+Err\(\s*StreamError::HeaderTooBig', body, re.S)
     if not m:
@@ -99,6 +113,7 @@ def extract(repo):
     cs = Source(repo + '/h3/src/client/stream.rs')
     body, spans['recv_response'] = cs.fn_body('recv_response')
     f['recv_response_own'] = recv_site(body, 'recv_response')
+    f['recv_response_decomp_code'] = decomp_arm(body, 'recv_response')
     m = re.search(r'HeaderTooLong\(\s*cancel_size\s*\)\s*\)\s*=>\s*\{\s*self\.inner\.stop_sending\(\s*Code::(\w+)\s*\)\s*;\s*return\s+Err\(\s*StreamError::HeaderTooBig', body)
     if not m:
         raise AnchorLost('recv_response: stop_sending + HeaderTooBig')
@@ -113,6 +128,7 @@ def extract(repo):
     # ---- receive: trailers (both roles)
     body, spans['poll_recv_trailers'] = co.fn_body('poll_recv_trailers')
     f['recv_trailers_own'] = recv_site(body, 'poll_recv_trailers')
+    f['recv_trailers_decomp_code'] = decomp_arm(body, 'poll_recv_trailers')
     if not re.search(r'HeaderTooLong\(\s*cancel_size\s*\)\s*\)\s*=>\s*\{\s*return\s+Poll::Ready\(\s*Err\(\s*StreamError::HeaderTooBig', body):
         raise AnchorLost('poll_recv_trailers: HeaderTooBig')
 
@@ -158,6 +174,9 @@ def render(f):
     L.append('(* receive sites: the limit handed to decode_stateless is the endpoint\'s own configured one *)')
     for k in ('recv_request_own', 'recv_response_own', 'recv_trailers_own'):
         L.append('Definition lim_%s : bool := %s.' % (k, b(f[k])))
+    L.append('(* any other DecoderError at a receive site: handle_connection_error_on_stream with this code *)')
+    for k in ('recv_request_decomp_code', 'recv_response_decomp_code', 'recv_trailers_decomp_code'):
+        L.append('Definition lim_%s : N := %s.' % (k, f[k]))
     L += ['(* a server refuses an oversized request with this status; an error of that send_response is returned *)',
           'Definition lim_refusal_status : N := %d.' % f['refusal_status'],
           'Definition lim_refusal_send_error_propagates : bool := %s.' % b(f['refusal_send_error_propagates']),
